@@ -336,15 +336,52 @@ class Work:
                 pass
             return (m.group(1) if m else None), case, txt
 
+        rss_limit = int(float(os.environ.get('VERIF_RSS_LIMIT_GB', '10')) * (1 << 30))
+
+        def wait_all(ps):
+            """Waits for the processes; one whose resident set grows beyond the limit is killed (a runaway would take
+            the machine down) and reported as too big. Returns {index: (rc, too_big)}."""
+            out, live = {}, dict(ps)
+            while live:
+                for k, p in list(live.items()):
+                    rc = p.poll()
+                    if rc is not None:
+                        out[k] = (rc, out.get(k, (None, False))[1])
+                        del live[k]
+                        continue
+                    try:
+                        rss = int(open('/proc/%d/statm' % p.pid).read().split()[1]) * os.sysconf('SC_PAGE_SIZE')
+                    except Exception:
+                        rss = 0
+                    if rss > rss_limit:
+                        out[k] = (None, True)
+                        p.kill()
+                if live:
+                    time.sleep(0.5)
+            return out
+
         procs = [start(i) + (i,) for i in range(shards)]
+        waited = wait_all({i: p for p, o, lf, lg, cf_, i in procs})
         reports = []
         for p, o, lf, lg, cf_, i in procs:
-            rc = p.wait()
+            rc, too_big = waited[i]
             lf.close()
-            if rc == 0 and os.path.exists(o):
+            if rc == 0 and os.path.exists(o) and not too_big:
                 reports.append(json.load(open(o)))
                 continue
             fatal, case, txt = crashinfo(lg, cf_)
+            if too_big:
+                fatal = 'resident memory of the process grew beyond %d GiB' % (rss_limit >> 30)
+            if fatal and case and too_big:
+                p2, o2, lf2, lg2, cf2 = start(i, '-again')
+                w2 = wait_all({0: p2})[0]
+                lf2.close()
+                _, case2, _ = crashinfo(lg2, cf2)
+                if w2[1] and case2 == case:
+                    log('engine %s shard %d: %s on %s (twice)' % (engine, i, fatal, case))
+                    self.engine_crashes.append(dict(case=case, fatal=fatal, log='', seed=self.seed))
+                    continue
+                raise Broken('engine %s shard %d: %s (case %s), not reproduced on the same case' % (engine, i, fatal, case))
             if fatal and case and 'concurrent map' in fatal:
                 # the runtime's own detector of unsynchronised map access: schedule dependent, needs no second run
                 log('engine %s shard %d: %s (case %s)' % (engine, i, fatal, case))
